@@ -2,6 +2,8 @@ package main
 
 import (
 	"bytes"
+	"io"
+	"net/url"
 	"net/http"
 	"net/http/httptest"
 	"sync"
@@ -172,15 +174,13 @@ func (p *pipeline) setScript(f upstreamScript) { p.mu.Lock(); p.script = f; p.mu
 func (p *pipeline) calls() int                  { p.mu.Lock(); defer p.mu.Unlock(); return p.upCalls }
 
 func (p *pipeline) do(method, host, uri string, hdr http.Header, body []byte) *httptest.ResponseRecorder {
-	var rd *bytes.Reader
+	var rd io.Reader = http.NoBody
 	if body != nil {
 		rd = bytes.NewReader(body)
 	}
-	var req *http.Request
-	if rd != nil {
-		req = httptest.NewRequest(method, "http://"+host+uri, rd)
-	} else {
-		req = httptest.NewRequest(method, "http://"+host+uri, nil)
+	req := httptest.NewRequest(method, "http://placeholder.test/", rd)
+	if u, err := url.ParseRequestURI(uri); err == nil {
+		req.URL = u
 	}
 	req.Host = host
 	req.RequestURI = uri
@@ -206,3 +206,5 @@ func answer(status int, hdr http.Header, body []byte) upstreamScript {
 }
 
 func serverOption() server.ServerOption { return server.ServerOption{Addr: ":0"} }
+
+func bytesBuf(s string) *bytes.Buffer { return bytes.NewBufferString(s) }
